@@ -360,7 +360,16 @@ func (s *state) query(qn int) {
 			bad("excluded-returned", "%s was on the caller's exclusion list", s.describe(p))
 		}
 		if e, why := s.expired(p); e {
-			bad("expired-returned:"+strings.Split(p.Class, "-")[0], "%s is expired for the next block (%s)", s.describe(p), why)
+			kind := strings.TrimPrefix(p.Class, "eth-")
+			switch {
+			case p.Aged:
+				kind = "pool-age"
+			case strings.HasPrefix(kind, "group"):
+				kind = "group-member"
+			default:
+				kind = strings.Split(kind, "-")[0]
+			}
+			bad("expired-returned:"+kind, "%s is expired for the next block (%s)", s.describe(p), why)
 		}
 		if p.Eth {
 			ethSeq[p.From] = append(ethSeq[p.From], p.Nonce)
@@ -525,7 +534,7 @@ func run(c *lib.Ctx) {
 	c.Assume("arrival order is a property of the time-ordered (simple) queue: C23 runs the pool with it",
 		"eth-signed parachain transactions (execer user.p.*) are not generated: the main chain cannot know their nonce",
 		"pool age is set with VerifSetEnterTime(now-10*limit); time expiries are >= 3e9 s: no oracle reads the clock")
-	n := c.N(40, 1300)
+	n := c.N(80, 2000)
 	per := 4
 	if !c.Quick() {
 		per = 20
